@@ -58,6 +58,34 @@ fn tok_event(body: &str, lit: &str, out: &mut Out) {
 
 const LITS: [&str; 9] = ["", ":0", ":1", ":0.5", ":0.25", ":1.0", ":0.333", ":0.1", ":0.99999994"];
 
+/// weight literals that are hard to convert: the exact decimal expansion of the point half-way between two neighbouring
+/// f32 values, and that expansion nudged upwards by one more digit (so that it must round the other way); literals
+/// with 20, 40 and 64 digits
+pub fn hard_literals() -> Vec<String> {
+    let mut v = vec![];
+    for bits in [0x3f00_0000u32, 0x3f00_0001, 0x3e80_0000, 0x3dcc_cccd, 0x3f7f_fffe, 0x15ae_43fd, 0x0000_0001, 0x3eaa_aaab, 0x3f33_3333] {
+        let a = f32::from_bits(bits) as f64;
+        let b = f32::from_bits(bits + 1) as f64;
+        let mid = (a + b) / 2.0; // exact in f64
+        let text = format!("{:.80}", mid);
+        let text = text.trim_end_matches('0').to_string();
+        if text.len() > 3 && text.len() < 70 {
+            v.push(format!(":{}", text));
+            v.push(format!(":{}1", text));
+            // just below: drop the last digit (the expansion ends in 5)
+            v.push(format!(":{}49", &text[..text.len() - 1]));
+        }
+    }
+    v.push(format!(":0.{}", "9".repeat(20)));
+    v.push(format!(":0.{}", "9".repeat(39)));
+    v.push(format!(":0.{}", "9".repeat(64)));
+    v.push(format!(":0.5{}", "0".repeat(45)));
+    v.push(format!(":0.{}1", "0".repeat(50)));
+    v.push(format!(":1.{}", "0".repeat(50)));
+    v.push(format!(":0.3{}", "3".repeat(40)));
+    v
+}
+
 pub fn record_c05(args: &Args, mut out: Out) -> usize {
     let mut rng = Rng::new(args.num("seed", 1));
     let text = std::fs::read_to_string(args.get("tokens").expect("--tokens (TLC export)")).unwrap();
@@ -71,6 +99,19 @@ pub fn record_c05(args: &Args, mut out: Out) -> usize {
         } else {
             tok_event(b, "", &mut out);
             tok_event(b, LITS[1 + rng.usize(LITS.len() - 1)], &mut out);
+        }
+    }
+    // hard weight literals on a few bodies of every kind
+    for b in ["AA", "QQ+", "99-33", "AKs", "93o", "A9s+", "K3o+", "AKs-A9s", "K9o-K3o", "AsKs", "2c3d"] {
+        for l in hard_literals() {
+            tok_event(b, &l, &mut out);
+        }
+    }
+    // the same body with and without a weight, in both orders, back to back
+    for b in ["AA", "QQ+", "AKs-A9s", "K3o+", "AsKs", "72o"] {
+        for (x, y) in [(":0.25", ""), ("", ":0.5"), (":0.12", ":0.99"), (":0.19", ":0.92"), (":1", ":0")] {
+            tok_event(b, x, &mut out);
+            tok_event(b, y, &mut out);
         }
     }
     // token lists with overlaps and random spaces; later tokens overwrite
@@ -159,6 +200,16 @@ fn name_of(c: char) -> String {
     }
 }
 
+/// run f on a thread of its own; Err(()) if it has not finished after `secs` seconds (the thread is left behind: it
+/// spins until the process exits), Ok(None) if it panicked
+fn watchdog<T: Send + 'static, F: FnOnce() -> T + Send + std::panic::UnwindSafe + 'static>(secs: u64, f: F) -> Result<Option<T>, ()> {
+    let (tx, rx) = std::sync::mpsc::channel();
+    std::thread::spawn(move || {
+        let _ = tx.send(guarded(f));
+    });
+    rx.recv_timeout(std::time::Duration::from_secs(secs)).map_err(|_| ())
+}
+
 fn res3<T, E>(r: Option<Result<T, E>>) -> &'static str {
     match r {
         Some(Ok(_)) => "ok",
@@ -229,27 +280,31 @@ pub fn str_event(s: &str, model: bool) -> String {
             flops.push([f[0], f[1], f[2]]);
         }
         let r3 = r.clone();
-        let e = guarded(move || {
+        let take = if r.card_pairs().len() > 200 { 600 } else { 12 };
+        let e = watchdog(20, move || {
             let mut v = vec![];
             for f in flops {
                 let board = [Some(crate::proj::card(f[0])), Some(crate::proj::card(f[1])), Some(crate::proj::card(f[2])), None, None];
                 let mut ev = espada::evaluator::FlopExhaustiveEvaluator::new(&board, &vec![r3.clone(), other.clone()]);
                 ev.scope(0, 1, 0, 3);
-                for sd in ev.into_iter().take(12) {
+                for sd in ev.into_iter().take(take) {
                     let mut cards: Vec<usize> = sd.board().iter().map(card_id).collect();
                     for p in sd.players() {
                         let (x, y) = pair_ids(&p.hole_cards());
                         cards.push(x);
                         cards.push(y);
                     }
-                    v.push(format!("[{},{}]", list(&cards), wbits(sd.probability().to_bits())));
+                    if v.len() < 24 {
+                        v.push(format!("[{},{}]", list(&cards), wbits(sd.probability().to_bits())));
+                    }
                 }
             }
             v
         });
         match e {
-            Some(v) => shows = format!("[{}]", v.join(",")),
-            None => enu = "panic",
+            Ok(Some(v)) => shows = format!("[{}]", v.join(",")),
+            Ok(None) => enu = "panic",
+            Err(()) => enu = "hang",
         }
     }
     format!(
@@ -338,7 +393,25 @@ fn shaped(rng: &mut Rng, edits: usize, sfx_len: usize) -> Vec<String> {
             out.push(format!("{}{}", r, s));
         }
     }
-    let pool: Vec<char> = ALPHA.iter().cloned().chain(['Q', 'd', 'c', '7', 'ß', '中']).collect();
+    // characters that case-insensitive or Unicode-aware matching folds onto ASCII letters and digits
+    let folds = ['\u{17f}', '\u{212a}', '\u{130}', '\u{131}', '\u{212b}', '\u{ff21}', '\u{ff4b}', '\u{ff13}', '\u{660}', '\u{1d7d9}', 'S', 'O', 'a', 'k'];
+    for r in reps {
+        let cs: Vec<char> = r.chars().collect();
+        for i in 0..cs.len() {
+            for f in folds {
+                let mut t = cs.clone();
+                t[i] = f;
+                out.push(t.iter().collect::<String>());
+                out.push(format!("{}:0.5", t.iter().collect::<String>()));
+            }
+        }
+    }
+    for l in hard_literals() {
+        for r in ["AA", "AKs-A9s", "A9s+", "AsKs"] {
+            out.push(format!("{}{}", r, l));
+        }
+    }
+    let pool: Vec<char> = ALPHA.iter().cloned().chain(['Q', 'd', 'c', '7', 'ß', '中', '\u{17f}', '\u{212a}']).collect();
     for _ in 0..edits {
         let b: Vec<char> = base[rng.usize(base.len())].chars().chain(sfx[rng.usize(sfx.len())].chars()).collect();
         let mut t = b.clone();
